@@ -41,6 +41,8 @@ type scriptConn struct {
 	closed  atomic.Bool
 	writes  [][]byte
 	yield   func()
+	// fault injection: the failWrite-th Write accepts failAccept bytes and returns a timeout
+	nwrites, failWrite, failAccept int
 }
 
 var errClosed = errors.New("use of closed network connection")
@@ -74,10 +76,26 @@ func (c *scriptConn) Write(b []byte) (int, error) {
 		c.yield()
 	}
 	c.mu.Lock()
+	defer c.mu.Unlock()
+	c.nwrites++
+	if c.failWrite > 0 && c.nwrites == c.failWrite {
+		// the deadline expires after part of the frame was accepted
+		k := c.failAccept
+		if k > len(b) {
+			k = len(b)
+		}
+		c.writes = append(c.writes, append([]byte(nil), b[:k]...))
+		return k, timeoutErr{}
+	}
 	c.writes = append(c.writes, append([]byte(nil), b...))
-	c.mu.Unlock()
 	return len(b), nil
 }
+
+type timeoutErr struct{}
+
+func (timeoutErr) Error() string   { return "i/o timeout" }
+func (timeoutErr) Timeout() bool   { return true }
+func (timeoutErr) Temporary() bool { return true }
 func (c *scriptConn) Close() error {
 	if c.closed.CompareAndSwap(false, true) {
 		close(c.done)
@@ -595,7 +613,19 @@ func init() {
 
 	// out <producers> <messages each> <seed>
 	runners["out"] = func(a []string) string { return runOutbound(atoi(a[0]), atoi(a[1]), int64(atoi(a[2]))) }
+	runners["outfault"] = func(a []string) string {
+		return runOutboundFault(atoi(a[0]), atoi(a[1]), atoi(a[2]), int64(atoi(a[3])))
+	}
 	families["C11"] = func(c *Ctx) {
+		// a write that times out after accepting part of a frame (1 byte, half, all but one), at the 1st..4th frame
+		for _, at := range []int{1, 2, 4} {
+			for _, acc := range []int{0, 1, 8, 15, 100} {
+				line := fmt.Sprintf("outfault 8 %d %d %d", at, acc, c.rng.Intn(1000))
+				if c.only == nil || c.only["outfault"] {
+					c.emit(line, runIsolatedOnce(line))
+				}
+			}
+		}
 		for _, p := range []int{1, 2, 3, 4, 8, 16, 32, 64} {
 			for _, n := range []int{1, 2, 10, 50} {
 				c.run("out", p, n, c.rng.Intn(1000000)+1)
@@ -734,7 +764,54 @@ func init() {
 		}
 		return fmt.Sprintf("same %d", len(jobs))
 	}
+	// concdhcp <goroutines> <n each>: DHCP requests whose transaction id the library picks (xid 0), built concurrently;
+	// ids from a sound generator collide about n^2/2^33 times — more than a handful of duplicates means the generator's
+	// state is shared without synchronisation
+	runners["concdhcp"] = func(a []string) string {
+		g, n := atoi(a[0]), atoi(a[1])
+		ids := make([][]uint32, g)
+		var wg sync.WaitGroup
+		hw := net.HardwareAddr{2, 0, 0, 0, 0, 1}
+		for w := 0; w < g; w++ {
+			wg.Add(1)
+			go func(w int) {
+				defer wg.Done()
+				for i := 0; i < n; i++ {
+					d, err := protocol.NewDHCPDiscover(0, hw)
+					if err != nil {
+						return
+					}
+					ids[w] = append(ids[w], d.Xid)
+				}
+			}(w)
+		}
+		wg.Wait()
+		seen := map[uint32]int{}
+		total, dup := 0, 0
+		for _, l := range ids {
+			for _, x := range l {
+				seen[x]++
+				total++
+			}
+		}
+		for _, k := range seen {
+			if k > 1 {
+				dup += k - 1
+			}
+		}
+		if total != g*n {
+			return fmt.Sprintf("differ built %d of %d", total, g*n)
+		}
+		if dup > 3 {
+			return fmt.Sprintf("differ %d duplicate transaction ids among %d", dup, total)
+		}
+		return fmt.Sprintf("same %d", total)
+	}
 	families["C14"] = func(c *Ctx) {
+		if c.only == nil || c.only["concdhcp"] {
+			line := "concdhcp 16 2000"
+			c.emit(line, runIsolatedOnce(line))
+		}
 		for _, g := range []int{4, 16, 64} {
 			// in a process of its own: a data race on a Go map is a fatal error that cannot be recovered
 			if c.only == nil || c.only["conclookup"] {
@@ -786,6 +863,54 @@ func concCases(seed int64, n int) []string {
 func normXid(s string) string { return s }
 
 // ---- outbound -----------------------------------------------------------------------------------
+
+// runOutboundFault: one producer, n frames; the failAt-th Write accepts `accept` bytes and times out. Whatever the
+// writer does next (the pinned code gives up: log.Fatalf), the wire must stay a prefix of the submitted frames in
+// order — a message's bytes never appear twice, truncated or out of order.
+func runOutboundFault(n, failAt, accept int, seed int64) string {
+	conn := &scriptConn{done: make(chan struct{}), failWrite: failAt, failAccept: accept}
+	var exited atomic.Bool
+	logrus.StandardLogger().ExitFunc = func(int) { exited.Store(true); runtime.Goexit() }
+	defer func() { logrus.StandardLogger().ExitFunc = nil }()
+	m := util.NewMessageStream(conn, &recParser{inFlight: map[*byte]bool{}})
+	var want []byte
+	go func() {
+		for k := 0; k < n; k++ {
+			sz := 16 + int(uint32(k*37+int(seed))%200)
+			if k%5 == 3 {
+				sz = 2500 + k*10
+			}
+			f := frame(sz, uint32(k))
+			select {
+			case m.Outbound <- &recMsg{data: f}:
+			case <-time.After(300 * time.Millisecond):
+				return
+			}
+		}
+	}()
+	for k := 0; k < n; k++ {
+		sz := 16 + int(uint32(k*37+int(seed))%200)
+		if k%5 == 3 {
+			sz = 2500 + k*10
+		}
+		want = append(want, frame(sz, uint32(k))...)
+	}
+	time.Sleep(400 * time.Millisecond)
+	conn.mu.Lock()
+	var wire []byte
+	for _, w := range conn.writes {
+		wire = append(wire, w...)
+	}
+	conn.mu.Unlock()
+	if len(wire) > len(want) || !bytes.Equal(wire, want[:len(wire)]) {
+		k := 0
+		for k < len(wire) && k < len(want) && wire[k] == want[k] {
+			k++
+		}
+		return fmt.Sprintf("bad: the wire is not a prefix of the submitted frames (first difference at byte %d of %d written)", k, len(wire))
+	}
+	return "prefix ok"
+}
 
 func runOutbound(nprod, nmsg int, seed int64) string {
 	y := yielder(seed)
